@@ -267,7 +267,14 @@ namespace sqf::parser::config
                             m_line++;
                             m_column = 0;
                         }
-                        ++iter;
+                        if (iter == m_end)
+                        {
+                            break;
+                        }
+                        else
+                        {
+                            iter++;
+                        }
                     }
                     // set length
                     len = iter - m_current;
